@@ -88,6 +88,16 @@ func queryAll(dir string) (ids []string, qerr string, panicked string) {
 	if err != nil {
 		return nil, err.Error(), ""
 	}
+	return queryEngine(eng)
+}
+
+// queryEngine returns every row id a match-all query of eng returns.
+func queryEngine(eng *bs.BloomSearchEngine) (ids []string, qerr string, panicked string) {
+	defer func() {
+		if p := recover(); p != nil {
+			panicked = fmt.Sprint(p)
+		}
+	}()
 	ctx, cancel := context.WithTimeout(context.Background(), 20*time.Second)
 	defer cancel()
 	res, err := eng.Query(ctx, bs.NewQuery().Build())
@@ -487,7 +497,7 @@ type imageObs struct {
 	Hist          int      `json:"hist"`
 	K             int      `json:"k"`
 	Label         string   `json:"label"`
-	Mode          string   `json:"mode"` // crash | power
+	Mode          string   `json:"mode"` // crash | power | live (no crash: a query through the history's own store, after an operation returned)
 	Variant       string   `json:"variant"`
 	Acked         int      `json:"acked"`
 	Ingested      int      `json:"ingested"`
@@ -597,6 +607,11 @@ func runCrash(out string, seed int64, nHist int, tier string, guard *h.StdioGuar
 		eng, err := bs.NewBloomSearchEngine(cfg, st, st)
 		h.Must(err, "engine")
 		eng.Start()
+		// queries of the running history go through the history's own store instance (what the store remembers between calls
+		// is part of what they see)
+		liveEng, err := bs.NewBloomSearchEngine(engineCfg(), st, st)
+		h.Must(err, "live engine")
+		var live []imageObs
 
 		var mu sync.Mutex
 		var events []fsEvent
@@ -615,6 +630,18 @@ func runCrash(out string, seed int64, nHist int, tier string, guard *h.StdioGuar
 				fault = ""
 			}
 			events = append(events, ev)
+			// a directory scan of the same store lands at every boundary (inside every call of every writer)
+			scanned := make(chan struct{})
+			go func() {
+				defer close(scanned)
+				defer func() { recover() }()
+				for range st.GetMaybeFilesForQuery(context.Background(), nil) {
+				}
+			}()
+			select {
+			case <-scanned:
+			case <-time.After(2 * time.Second):
+			}
 			return err
 		}
 		// the history
@@ -733,11 +760,50 @@ func runCrash(out string, seed int64, nHist int, tier string, guard *h.StdioGuar
 			fault = ""
 			mu.Unlock()
 			ops = append(ops, op)
+			// the operation has returned: a query through the same store sees every acknowledged row exactly once
+			{
+				hook := bs.VerifFS
+				bs.VerifFS = nil
+				std0 := guard.Len()
+				ids, qerr, pan := queryEngine(liveEng)
+				bs.VerifFS = hook
+				mu.Lock()
+				lo := imageObs{Hist: hi, K: len(events), Label: "after-" + op.Kind, Mode: "live", Variant: "same-store", QErr: qerr, Panic: pan,
+					Rows: len(ids), Sample: []string{}, Stdio: guard.Len() - std0}
+				got := map[string]int{}
+				for _, id := range ids {
+					got[id]++
+					if got[id] == 2 {
+						lo.Dups++
+					}
+					if _, ok := ingestedAt[id]; !ok && got[id] == 1 {
+						lo.Invented++
+					}
+				}
+				lo.Ingested = len(ingestedAt)
+				for _, a := range acks {
+					for _, id := range a.ids {
+						if a.ok {
+							lo.Acked++
+							if got[id] == 0 {
+								lo.Missing++
+							}
+						}
+					}
+				}
+				mu.Unlock()
+				live = append(live, lo)
+			}
 		}
 		ctx, cancel := context.WithTimeout(context.Background(), 20*time.Second)
 		eng.Stop(ctx)
 		cancel()
 		bs.VerifFS = nil
+		for _, lo := range live {
+			imgID++
+			lo.ID, lo.Ops = imgID, ops
+			h.Must(enc.Encode(lo), "encode")
+		}
 		final := snapshot(dir)
 		events = append(events, fsEvent{K: len(events), Op: "end", Snap: final, Hist: nops})
 
